@@ -360,7 +360,11 @@ def ref_coords(kind, V, x, iters=30):
     else:
         N, _ = shape(kind, X)
         F = np.einsum("vdn,vn->dn", V, N)
-        ok = np.abs(x - F).max(axis=0) < 1e-9
+        # residual relative to the cell size for very small / very large
+        # cells, the historical absolute 1e-9 in between
+        hs = (V.max(axis=0) - V.min(axis=0)).max(axis=0)
+        tolF = 1e-9 * np.where((hs < 1e-2) | (hs > 1.0), hs, 1.0)
+        ok = np.abs(x - F).max(axis=0) < tolF
     return X, ok
 
 
